@@ -12,7 +12,7 @@ from .heap import class_id
 class Contract:
     def __init__(self, qualname, *, types=None, requires=(), ensures=(), raises=None, modifies=(),
                  returns=None, loops=None, properties=(), pure=None, fresh=False, decreases=None,
-                 ghost_in=(), notes="", modifies_fields=None, opts=None, lemmas=()):
+                 ghost_in=(), notes="", modifies_fields=None, opts=None, lemmas=(), defs=()):
         self.qualname = qualname
         self.types = types or {}
         self.requires = [_parse(x) for x in requires]
@@ -35,6 +35,8 @@ class Contract:
         self.notes = notes
         self.opts = opts or {}
         self.lemmas = list(lemmas)
+        # definitions of spec-level notions in terms of externals: assumed when verifying the body only
+        self.defs = [_parse(x) for x in defs]
 
 
 def _parse(src):
